@@ -108,6 +108,7 @@ func genC19(r *simrt.Rand, tier string, idx int) *hx.Program {
 		p.P["zero_interval"] = 1
 	}
 	p.P["envform"] = int64(r.Intn(3)) // how "false"/"true" is spelled in the environment
+	p.P["flatyaml"] = int64(r.Intn(2)) // configuration files that name only the switch spell it telemetry.enabled (flat) in half of the programs
 	if r.Pct(20) {
 		p.P["idfault"] = int64(1 + r.Intn(2)) // disk fault: the instance id file cannot be written (1) / is empty and read-only (2)
 	} else if r.Pct(30) {
@@ -434,6 +435,10 @@ func execC19(t *testing.T, prog *hx.Program, dec *simrt.Decider, verbose bool) *
 				}
 				if prog.Param("zero_interval", 0) == 1 {
 					y = fmt.Sprintf("telemetry:\n  enabled: %v\n  interval.seconds: 0\n", curWant)
+				} else if interval <= 0 && prog.Param("flatyaml", 0) == 1 {
+					// the flat spelling of a nested key, which the project's own example configuration uses for
+					// other settings (data.dir, ...)
+					y = fmt.Sprintf("telemetry.enabled: %v\n", curWant)
 				}
 				os.WriteFile(cfgFile, []byte(y), 0o644)
 				c, err = NewConfig(cfgFile)
